@@ -35,7 +35,7 @@ struct Naming {
 
 const PLAIN: Naming = Naming { id: "plain", names: ["s0", "s1", "s2", "s3", "s4"], labels: LABELS };
 
-const NAMINGS: [Naming; 7] = [
+const NAMINGS: [Naming; 8] = [
     PLAIN,
     // names whose lexicographic, numeric and list orders all differ
     Naming { id: "numeric-names", names: ["s10", "s9", "s100", "s1", "s2"], labels: ["", "north", "South", "east"] },
@@ -47,6 +47,8 @@ const NAMINGS: [Naming; 7] = [
     Naming { id: "numeric-labels", names: ["s0", "s1", "s2", "s3", "s4"], labels: ["", "2", "0", "s0"] },
     // sample names with blanks and punctuation (VCF sample columns are tab-separated)
     Naming { id: "names-with-blanks", names: ["NA 1", "NA 2", "NA 10", "NA", "x.y-z"], labels: ["", "A", "B", "C"] },
+    // labels that contain '=' themselves (only the first '=' of an entry separates sample and label)
+    Naming { id: "labels-with-equals", names: ["s0", "s1", "s2", "s3", "s4"], labels: ["", "K=2.1", "K=2.2", "K"] },
     // non-ASCII names and labels
     Naming { id: "unicode", names: ["sämple", "样本", "sé", "s_3", "s-4"], labels: ["", "Nord", "Süd", "东"] },
 ];
@@ -254,6 +256,17 @@ fn eval_cli_n(list: &[Entry], columns: &[usize], nm: &Naming, scratch: &Scratch)
             ("crlf-no-final-newline", crlf.trim_end_matches("\r\n").to_string()),
             ("mixed-endings", mixed),
         ];
+        // the samples file need not be a regular file: a named pipe (`-S <(...)`) has the same content
+        {
+            let c = crate::cli::run_sfs_fifo_at(&["create", "--samples-file", "{FIFO}"], lf.as_bytes(), ".samples", Stdin::Bytes(&vcf), scratch);
+            if c.stdout != a.stdout || c.code != a.code {
+                v.push((
+                    "C09|cli|samples-file-as-fifo".to_string(),
+                    format!("--samples '{spelled}' gives {:?} but the same lines read from a named pipe give {} {:?} {}", a.stdout_str(), c.status_str(), c.stdout_str(), c.stderr_str().trim()),
+                    case_jn(list, columns, nm),
+                ));
+            }
+        }
         for (what, text) in variants {
             let path = scratch.file(".samples", text.as_bytes());
             let c = run_sfs(&["create", "--samples-file", path.to_str().unwrap()], Stdin::Bytes(&vcf), scratch);
@@ -501,9 +514,9 @@ pub fn run(tier: Tier) -> i32 {
     }
     rep.part(Part {
         name: "cli: --samples and --samples-file".into(),
-        evaluations: 6 * cj.len() as u64,
+        evaluations: 7 * cj.len() as u64,
         nontrivial: 2 * cj.iter().filter(|c| nontrivial(&c.0)).count() as u64,
-        note: "every list of 3 samples (and a slice / all of 4) as --samples and as --samples-file (LF, CRLF, no final newline, CRLF without final newline, mixed endings), input columns permuted".into(),
+        note: "every list of 3 samples (and a slice / all of 4) as --samples and as --samples-file (LF, CRLF, no final newline, CRLF without final newline, mixed endings; a named pipe), input columns permuted".into(),
         exhaustive: true,
         extra: vec![],
     });
@@ -528,7 +541,7 @@ pub fn run(tier: Tier) -> i32 {
         name: "cli: spellings of sample names and labels".into(),
         evaluations: 2 * nj.len() as u64,
         nontrivial: 2 * nj.len() as u64,
-        note: format!("{} naming schemes (numeric names in non-lexicographic order, labels with blanks sharing a first word, prefix / case-differing labels, numeric labels, names with blanks, non-ASCII) x {} lists of 3 samples as --samples and --samples-file; the result must be that of the plain spelling", NAMINGS.len() - 1, if tier.thorough() { "all".to_string() } else { "every third of the".to_string() }),
+        note: format!("{} naming schemes (numeric names in non-lexicographic order, labels with blanks sharing a first word, prefix / case-differing labels, numeric labels, names with blanks, labels containing '=', non-ASCII) x {} lists of 3 samples as --samples and --samples-file; the result must be that of the plain spelling", NAMINGS.len() - 1, if tier.thorough() { "all".to_string() } else { "every third of the".to_string() }),
         exhaustive: true,
         extra: vec![("namings".into(), J::strs(&NAMINGS.iter().map(|n| n.id).collect::<Vec<_>>()))],
     });
